@@ -18,6 +18,7 @@ CONSTANTS
   Cuts = TRUE
   MaxNow = 0
   MaxLevel = 14
+  Pipe = FALSE
   MaxDin = 0
 INIT GInit
 NEXT GNext
